@@ -88,6 +88,13 @@ func (vm *VotingMachine) CollectVote(vote hotstuff.VoteMsg) {
 }
 
 func (vm *VotingMachine) verifyCert(cert hotstuff.PartialCert, block *hotstuff.Block) {
+	// A vote carries exactly one replica's signature. An aggregate would be stored under its
+	// first signer only, could overlap with another signer's own vote, and then no quorum
+	// certificate could ever be created from the stored votes.
+	if sig := cert.Signature(); sig == nil || sig.Participants().Len() != 1 {
+		vm.logger.Info("vote does not carry exactly one signature")
+		return
+	}
 	if err := vm.auth.VerifyPartialCert(cert); err != nil {
 		vm.logger.Infof("vote could not be verified: %v", err)
 		return
